@@ -331,6 +331,16 @@ func PrintLog() []PrintEvent { return nil }
 // functions (full SSA names); everywhere else the insertion order is used. No names: everywhere again.
 func ExploreMapOrderIn(funcs ...string) {}
 
+// JSONText (intrinsic): the JSON text of x.
+func JSONText(x interface{}) string {
+	b, err := json.Marshal(x)
+	if err != nil {
+		cur.Mismatch = append(cur.Mismatch, "jsontext")
+		panic(stopReplay{"value is not serialisable"})
+	}
+	return string(b)
+}
+
 // NoOrderLemma (intrinsic): explore every map order also inside the functions covered by an order lemma
 // (used by the lemma harnesses themselves).
 func NoOrderLemma(on bool) {}
